@@ -114,6 +114,10 @@ def call(
     out = numpy.zeros((), dtype=int)
     for exponent, coefficient in zip(poly.exponents, poly.coefficients):
         term = ones
+        if not numpy.any(coefficient):
+            # an all-zero term (as retain_coefficients keeps them) contributes
+            # nothing, whatever its powers would overflow to
+            exponent = numpy.zeros_like(exponent)
         for power, name in zip(exponent, poly.names):
             term = term * parameters[name] ** int(power)
         if isinstance(term, numpoly.ndpoly):
